@@ -278,3 +278,47 @@ extern "C" void vh_c03_entity_sources() {
     c.get = [](const std::string &n) { return item_of(g_holder.getSource(n)); };
     run_history(c, []() { g_holder = none; reopen_base(true, false, false); g_holder = g_block.getDataArray("holder"); });
 }
+
+// ---- sources attached to an entity, with NESTED sources and deletion of an ancestor: the holder's count / index / id lookups,
+//      has-queries and enumeration agree with the reference list after every step and after reopen (the API is id- and handle-based) ----
+#ifndef VH_SSTEPS
+#define VH_SSTEPS 3
+#endif
+extern "C" void vh_c03_nested_entity_sources() {
+    nixsym_declare_reach("attached"); nixsym_declare_reach("ancestor_deleted"); nixsym_declare_reach("final");
+    open_base(true, false, false);
+    Source h[3]; bool alive[3] = {true, true, true}; std::string ids[3];
+    h[0] = g_block.createSource("top", "t"); h[1] = h[0].createSource("kid", "t"); h[2] = g_block.createSource("other", "t");
+    for (int i = 0; i < 3; i++) ids[i] = h[i].id();
+    g_holder = g_block.createDataArray("holder", "t", DataType::Double, NDSize({1}));
+    std::vector<int> att;                                   // attached, in attach order
+    auto is_att = [&](int k) { for (int x : att) if (x == k) return true; return false; };
+    auto detach = [&](int k) { for (size_t i = 0; i < att.size(); i++) if (att[i] == k) { att.erase(att.begin() + i); return; } };
+    auto check = [&]() {
+        nixsym_assert(g_holder.sourceCount() == att.size(), "source count of the holder equals the number of attached, undeleted sources");
+        std::vector<Source> all = g_holder.sources();
+        nixsym_assert(all.size() == att.size(), "sources() enumerates as many as sourceCount()");
+        for (size_t i = 0; i < att.size(); i++) {
+            nixsym_assert(g_holder.getSource(i).id() == ids[att[i]], "index order is attach order");
+            nixsym_assert(i < all.size() && all[i].id() == ids[att[i]], "enumeration agrees with the index lookup");
+        }
+        for (int k = 0; k < 3; k++) {
+            nixsym_assert(g_holder.hasSource(ids[k]) == is_att(k), "hasSource(id) agrees with the list");
+            Source s = g_holder.getSource(ids[k]);
+            nixsym_assert((bool)s == is_att(k), "getSource(id) agrees with the list");
+        }
+    };
+    for (int step = 0; step < VH_SSTEPS; step++) {
+        uint32_t op = nixsym_choice("op", 6);
+        if (op < 3) { int k = (int)op; if (!alive[k] || is_att(k)) continue; if (nixsym_choice("byid", 2)) g_holder.addSource(ids[k]); else g_holder.addSource(h[k]); att.push_back(k); nixsym_reach("attached"); }
+        else if (op == 3) { if (!alive[0]) continue; bool ok = nixsym_choice("byid", 2) ? g_block.deleteSource(ids[0]) : g_block.deleteSource("top"); nixsym_assert(ok, "deleting a root source reports success");
+                            alive[0] = alive[1] = false; detach(0); detach(1); nixsym_reach("ancestor_deleted"); }
+        else if (op == 4) { if (!alive[1]) continue; bool ok = h[0].deleteSource("kid"); nixsym_assert(ok, "deleting a child source reports success"); alive[1] = false; detach(1); }
+        else { if (!is_att(1)) continue; bool ok = g_holder.removeSource(ids[1]); nixsym_assert(ok, "removing an attached source reports success"); detach(1); }
+        check();
+    }
+    for (auto &x : h) x = none;
+    g_holder = none; reopen_base(true, false, false); g_holder = g_block.getDataArray("holder");
+    check();
+    nixsym_reach("final");
+}
